@@ -93,12 +93,17 @@ def _resolve_constant(*others: Any, constant: Optional[bool]) -> Optional[bool]:
 _PY_SCALARS = (bool, int, float)
 
 
-def _resolve_python_scalars(input_vars: Sequence[Any]) -> Tuple[Any, ...]:
+def _resolve_python_scalars(
+    input_vars: Sequence[Any], dtype: DTypeLike = None
+) -> Tuple[Any, ...]:
     """Under NumPy 2 (NEP 50) Python scalars are 'weakly typed': they adopt the
     dtype of the arrays that they are combined with (``float32_array * 2.0`` is
     float32). An operation's inputs are converted to tensors (0-d arrays) before
     NumPy sees them, which would make a Python scalar a strongly-typed float64 /
-    int64 operand. Give each Python scalar the dtype NumPy would have resolved."""
+    int64 operand. Give each Python scalar the dtype NumPy would have resolved.
+
+    If the operation was passed an explicit ``dtype``, NumPy converts the scalar
+    straight to that dtype."""
     dtypes = [
         var.dtype
         for var in input_vars
@@ -110,7 +115,12 @@ def _resolve_python_scalars(input_vars: Sequence[Any]) -> Tuple[Any, ...]:
     for var in input_vars:
         if type(var) in _PY_SCALARS:
             try:
-                var = np.asarray(var, dtype=np.result_type(*dtypes, var))
+                if dtype is not None and np.can_cast(
+                    np.asarray(var).dtype, dtype, "same_kind"
+                ):
+                    var = np.asarray(var, dtype=dtype)
+                else:
+                    var = np.asarray(var, dtype=np.result_type(*dtypes, var))
             except (OverflowError, TypeError, ValueError):
                 pass  # leave it to NumPy to accept or reject the operand
         out.append(var)
@@ -1121,7 +1131,9 @@ class Tensor:
         _uniques_bases_then_arrs = ()
 
         if NP_IS_V2 and any(type(var) in _PY_SCALARS for var in input_vars):
-            input_vars = _resolve_python_scalars(input_vars)
+            input_vars = _resolve_python_scalars(
+                input_vars, dtype=(op_kwargs or {}).get("dtype")
+            )
 
         tensor_vars = tuple(
             cls(var, constant=True, copy=False) if not isinstance(var, Tensor) else var
